@@ -233,13 +233,23 @@ Proof. exact persist_calls. Qed.
 Print Assumptions C10_persist_calls.
 
 (* ---- DisableSTS / configured SSL: never requested, never acted on ------------ *)
-(* composes with C08: CAP REQ lists only keys of possibleCapList *)
+(* Requested: composes with C08 (CAP REQ lists only keys of possibleCapList).  For EVERY
+   configuration: sts is offered iff the application listed it in SupportedCaps (the documented
+   way to negotiate it oneself), or STS is not disabled, SSL is not configured and we are not
+   inside the five-minute window after a fallback.  So "not requested with DisableSTS / SSL"
+   holds exactly when SupportedCaps does not list sts. *)
 Theorem C10_requested_iff : forall cfg recent,
-  aget s_sts (c_supported cfg) = None ->
   amem s_sts (possible_caps cfg recent) =
-  negb (c_disable_sts cfg) && negb (c_ssl cfg) && negb (recent && negb (c_disable_fallback cfg)).
-Proof. exact possible_caps_sts. Qed.
+  amem s_sts (c_supported cfg) ||
+  (negb (c_disable_sts cfg) && negb (c_ssl cfg) && negb (recent && negb (c_disable_fallback cfg))).
+Proof. exact possible_caps_sts_general. Qed.
 Print Assumptions C10_requested_iff.
+
+(* Acted on: C10_disabled_ack and C10_disabled above carry NO hypothesis on SupportedCaps -
+   with DisableSTS the policy is never acted on (regular end of round, policy untouched, one
+   dial, no ErrEvent), also when the application lists sts and it is therefore requested and
+   acknowledged.  With configured SSL the clause needs the hypothesis (C10_ssl): if the
+   application lists sts, the code does evaluate the policy on the TLS connection. *)
 
 Theorem C10_ssl : forall ord cfg port s c rest,
   begin_upgrade s = false ->
@@ -250,3 +260,27 @@ Theorem C10_ssl : forall ord cfg port s c rest,
                    ret <> RErrEvent /\ ret <> RSTSUpgradeFailed /\ sts_enabled s' = false.
 Proof. exact ssl_connect. Qed.
 Print Assumptions C10_ssl.
+
+(* ---- renewal ------------------------------------------------------------------ *)
+(* Every duration acknowledged on a TLS connection restarts the policy's clock, whatever was
+   stored before (same value or not): persistenceReceived = now, persistenceDuration = the
+   acknowledged value, port untouched. *)
+Theorem C10_tls_renewal : forall ord cfg now st a toks v d,
+  c_disable_sts cfg = false ->
+  aget s_sts (ack_enabled st toks) = Some v ->
+  cv_get s_duration v = Some d ->
+  let s' := st_sts (fst (handle_cap ord cfg true now st (ack_params a toks))) in
+  persistence_received s' = now /\ persistence_duration s' = atoi_go d /\
+  upgrade_port s' = upgrade_port (st_sts st).
+Proof. exact tls_renewal. Qed.
+Print Assumptions C10_tls_renewal.
+
+(* … and a dial that fails within `duration` whole seconds of the last receipt is a failure
+   under an unexpired policy: ErrSTSUpgradeFailed, no other dial, the policy kept as it is. *)
+Theorem C10_no_downgrade_unexpired : forall ord cfg port s c rest,
+  sts_enabled s = true -> cs_dial_ok c = false ->
+  (persistence_received s <= cs_dial_now c)%Z ->
+  (cs_dial_now c - persistence_received s < (persistence_duration s + 1) * second_ns)%Z ->
+  start_conn ord cfg port s (c :: rest) = ([mkLog (upgrade_port s) true false []], RSTSUpgradeFailed, s).
+Proof. exact no_downgrade_unexpired. Qed.
+Print Assumptions C10_no_downgrade_unexpired.
